@@ -59,8 +59,8 @@ var argHints = map[string]string{
 
 // ChaoticOpts configures the chaotic generator.
 type ChaoticOpts struct {
-	MaxDepth   int
-	Exclude    map[string]bool // built-ins never generated
+	MaxDepth    int
+	Exclude     map[string]bool // built-ins never generated
 	NoTransform bool
 	EdgeNumbers bool // also feed the edge-number set to numeric parameters
 }
